@@ -336,7 +336,7 @@ class BudgetExceeded(Exception):
     evaluations than the scenario budget (VODE occasionally takes 1e4+ tiny steps)"""
 
 
-def run_sbm(case, budget=None):
+def run_sbm(case, budget=None, model=None):
     """run the REAL single_bubble_model on a case; returns the Model object with the extra attributes
     `_T0_used`;
     `_raw`     : one entry per pass through the loop of calculate_path, recorded by a recording subclass of
@@ -347,6 +347,8 @@ def run_sbm(case, budget=None):
     `_n_reset` : number of heat resets of l.847-850, counted by an instance-level wrapper of profile.get_values
                  (that call is the only one that passes the name as a bare string);
     `_n_rhs`   : number of right-hand-side evaluations.
+    `model` : an existing single_bubble_model.Model on the same profile to RE-USE for this simulate call
+              (default: a fresh Model).
     Exceptions of the code under test propagate to the caller (BudgetExceeded is ours)."""
     from tamoc import single_bubble_model
     prf = case['prf']
@@ -379,7 +381,8 @@ def run_sbm(case, budget=None):
         with warnings.catch_warnings():
             warnings.simplefilter('ignore')
             with np.errstate(all='ignore'), contextlib.redirect_stdout(buf):
-                model = single_bubble_model.Model(prf)
+                if model is None:
+                    model = single_bubble_model.Model(prf)
                 T0 = None
                 if case['dT'] is not None:
                     Ta = float(orig(case['z0'], ['temperature'])[0])
